@@ -2,7 +2,7 @@
    the outputs of the model.  No proofs in this file. *)
 From Coq Require Import List NArith Arith Bool.
 From Base Require Import Bytes.
-From Fw Require Import Model.
+From Fw Require Import GenConsts Model.
 Import ListNotations.
 Open Scope N_scope.
 
@@ -49,7 +49,7 @@ Fixpoint pend_upsert (sp : pend) (r : prec) : pend :=
 
 (* an Interest the forwarder took as pending under upstream token utok *)
 Definition pend_interest (regs : list name) (sp : pend) (now : N) (i : interest) (utok : N) : pend :=
-  let lt := match i_life i with Some l => l | None => default_lifetime end in
+  let lt := match i_life i with Some l => l | None => default_lifetime_in end in
   pend_upsert sp {| p_face := i_face i; p_name := i_name i; p_cbp := i_cbp i; p_mbf := i_mbf i;
                     p_hint := match select_hint regs (i_hints i) with Some h => h | None => [] end;
                     p_utok := utok; p_dtok := i_tok i; p_exp := now + lt; p_expmax := now + lt |}.
@@ -186,7 +186,7 @@ Definition c02_usable (s : fw) (i : interest) (h : nexthop) : bool :=
 (* inside the suppression interval of an upstream record with another nonce *)
 Definition c02_suppressed (s : fw) (now : N) (i : interest) : bool :=
   match i_nhf i, i_nonce i with
-  | None, Some x => existsb (fun o => negb (or_nonce o =? x) && (now <? or_at o + suppression)) (c02_outs s i)
+  | None, Some x => existsb (fun o => negb (or_nonce o =? x) && (now <? or_at o + suppression (strat_of (strat s) (i_name i)))) (c02_outs s i)
   | _, _ => false
   end.
 
